@@ -444,6 +444,8 @@ pub struct LimitGen {
     pub step: usize,
     /// first grow to limit-1, then +1 (exactly the limit), then +1 (refused)
     pub two_phase: bool,
+    /// do NOT re-create the top accessor after the refused growth: the same wrapper keeps being used
+    pub keep_wrapper: bool,
 }
 
 impl OpSource for LimitGen {
@@ -478,7 +480,7 @@ impl OpSource for LimitGen {
                 }
             }
             3 => grow(1), // one past: InvalidRealloc
-            4 => Some("reborrow".into()),
+            4 => Some(if self.keep_wrapper { "touch .".into() } else { "reborrow".into() }),
             5 => match (sh, va) {
                 (Shape::Rem, _) => Some(format!("set_len {p} 3")),
                 _ => Some(format!("remove_range {p} 1 5000")),
@@ -508,4 +510,36 @@ pub fn sequences(alphabet: &[&str], n: usize) -> Vec<Vec<String>> {
         out = next;
     }
     out
+}
+
+
+/// One op that fills a byte container up to `delta` bytes below the growth limit, then a random history
+/// on the SAME accessor (growth refusals followed by continued use).
+pub struct NearLimit {
+    pub path: Vec<Step>,
+    pub delta: usize,
+    pub done: bool,
+    pub inner: RandGen,
+}
+
+impl OpSource for NearLimit {
+    fn next(&mut self, v: &GenView) -> Option<String> {
+        if !self.done {
+            self.done = true;
+            if let Some((sh, va)) = get_at(v.shape, v.model, &self.path) {
+                let room = (v.cap - v.len).saturating_sub(self.delta);
+                let p = print_path(&self.path);
+                match (sh, va) {
+                    (Shape::Rem, Val::Rem(b)) => return Some(format!("set_len {p} {}", b.len() + room)),
+                    (Shape::List(e, _), Val::Seq(es)) if e.fixed_size() == 1 => {
+                        let items: Vec<Vec<u8>> = (0..room).map(|i| vec![(i % 251) as u8]).collect();
+                        return Some(format!("insert_all {p} {} {}", es.len() / 2, hexlist(&items)));
+                    }
+                    _ => {}
+                }
+            }
+        }
+        // no scope changes that re-create the top accessor too early: RandGen's own `reborrow`s are rare
+        self.inner.next(v)
+    }
 }
